@@ -36,12 +36,22 @@ def zeroV : Vec d Rat := fun _ => 0
 def addV (u v : Vec d Rat) : Vec d Rat := fun i => u i + v i
 def subV (u v : Vec d Rat) : Vec d Rat := fun i => u i - v i
 
-/-- Read a vector / matrix back from a table (`noinline`: the table is built once, strictly). -/
-@[noinline] def ofVector {α : Type} (a : Vector α d) : Vec d α := fun i => a[i]
-@[noinline] def ofVector2 {α : Type} (a : Vector (Vector α d) d) : Mat d α := fun i j => a[i][j]
-/-- Memoise a vector / matrix (semantically the identity). -/
-@[macro_inline] def tabV {α : Type} (v : Vec d α) : Vec d α := ofVector (Vector.ofFn v)
-@[macro_inline] def tabM {α : Type} (A : Mat d α) : Mat d α := ofVector2 (Vector.ofFn fun i => Vector.ofFn (A i))
+/-- Tabulated vector / matrix: plain data, built strictly by the `noinline` constructors below. -/
+structure TVec (d : Nat) (α : Type) where
+  tbl : Vector α d
+structure TMat (d : Nat) (α : Type) where
+  tbl : Vector (Vector α d) d
+
+@[noinline] def TVec.ofFn {α : Type} (v : Vec d α) : TVec d α := ⟨Vector.ofFn v⟩
+@[noinline] def TMat.ofFn {α : Type} (A : Mat d α) : TMat d α := ⟨Vector.ofFn fun i => Vector.ofFn (A i)⟩
+def TVec.get {α : Type} (t : TVec d α) : Vec d α := fun i => t.tbl[i]
+def TMat.get {α : Type} (t : TMat d α) : Mat d α := fun i j => t.tbl[i][j]
+
+/-- Memoise a vector / matrix (semantically the identity).  `macro_inline`, so that the table is
+    built where the value is created: a *definition* of function type would be eta-expanded by the
+    compiler and rebuild the table on every access. -/
+@[macro_inline] def tabV {α : Type} (v : Vec d α) : Vec d α := TVec.get (TVec.ofFn v)
+@[macro_inline] def tabM {α : Type} (A : Mat d α) : Mat d α := TMat.get (TMat.ofFn A)
 
 def vecEqI (u v : Vec d Int) : Bool := (List.finRange d).all fun i => u i == v i
 def vecEqR (u v : Vec d Rat) : Bool := (List.finRange d).all fun i => u i == v i
